@@ -49,7 +49,8 @@ VARIANTS = {1: "Module.train(True) does not clear caches", 2: "Module.train(Fals
             9: "_VariationalStrategy._clear_cache missing", 10: "KISS-GP covar_cache pair not re-keyed",
             11: "Module.train override missing (no clearing on any mode change)",
             12: "staleness guard missing (SGPR strategy not rebuilt when sgpr_diagonal_correction changes / "
-                "variational memo not cleared when variational_cholesky_jitter changes)",
+                "variational memo not cleared when variational_cholesky_jitter changes / cached K_UU kept when a "
+                "data-following KISS-GP grid is replaced)",
             13: "get_fantasy_model does not restore the source model when the copy raises",
             14: "VariationalStrategy.forward keeps a memoised Cholesky factor of another batch shape"}
 ATOL = 1e-8
@@ -174,6 +175,10 @@ class Family:
         n = torch.Size(shape).numel()
         return torch.stack([self.Xs + 0.0625 * i for i in range(n)]).reshape(*shape, *self.Xs.shape)
 
+    def xs_for(self, c):
+        """test inputs of configuration c (families may tie a range of test inputs to a settings index)"""
+        return self.xs(c // NCFG)
+
     def cfg_label(self, c):
         return self.cfg_names[c % NCFG] + ("" if c < NCFG else "@b%s" % (SHAPES[c // NCFG],))
 
@@ -281,6 +286,82 @@ class Kiss(ExactA):
                 _multi(gs.skip_posterior_variances(True))][c]
 
 
+class ExactNaN(ExactA):
+    """exact GP whose training targets contain NaNs (missing observations): the settings axis is the
+    observation_nan_policy itself - 'ignore' (the default: NaN outputs, as documented), 'mask', 'fill', and
+    fast_pred_var + 'mask' - in every order on one model object"""
+    name, coq, cmp_backward_status = "exact:nan-targets", 5, False
+    cfg_names = ["nan_policy_ignore(default)", "nan_policy_mask", "nan_policy_fill", "fast_pred_var+nan_policy_mask"]
+    batch_cfg = 1
+
+    def setup(self):
+        super().setup()
+        r = self.rng
+        self.data = []
+        for v in range(3):
+            n = 6
+            X = torch.tensor(_pts(r, n))
+            y = [round(r.uniform(-2, 2) * 8) / 8 for _ in range(n)]
+            for i in r.sample(range(n), 1 + (v % 2)):     # one or two missing observations, elsewhere per version
+                y[i] = float("nan")
+            self.data.append((X, torch.tensor(y)))
+
+    def cfg(self, c):
+        return [_multi(), _multi(gs.observation_nan_policy("mask")), _multi(gs.observation_nan_policy("fill")),
+                _multi(gs.fast_pred_var(True), gs.observation_nan_policy("mask"))][c]
+
+    def loss(self, model):
+        # training on data with missing observations is done under the 'mask' policy
+        with gs.observation_nan_policy("mask"):
+            return super().loss(model)
+
+
+class KissDyn(Kiss):
+    """KISS-GP on a DATA-FOLLOWING grid (GridInterpolationKernel without grid_bounds): the grid is laid out anew for
+    the inputs of every call.  The three data versions span different input ranges, the test inputs lie strictly
+    inside the narrowest training range (batched copies included), the prior-mode call sees the test inputs only,
+    and setting 3 predicts at test inputs OUTSIDE the training range."""
+    name, coq = "kiss:data-following-grid", 6
+    cfg_names = ["default", "fast_pred_var", "fast_pred_var+fast_pred_samples", "default@test-inputs-outside-training-range"]
+
+    def setup(self):
+        super().setup()
+        r = self.rng
+        self.data = []
+        for R in (1.0, 2.0, 3.0):
+            for _ in range(1000):
+                inner = [round(r.uniform(-R, R) * 16) / 16 for _ in range(4)]
+                xs = sorted([-R, R] + inner)
+                if min(b - a for a, b in zip(xs, xs[1:])) >= 0.15 * R:
+                    break
+            r.shuffle(xs)
+            self.data.append((torch.tensor([[v] for v in xs]),
+                              torch.tensor([round(r.uniform(-2, 2) * 8) / 8 for _ in range(6)])))
+        self.Xs = torch.tensor(_pts(r, 3, lo=-0.8, hi=0.6))
+        self.Xwide = torch.tensor([[-4.5], [self.Xs[0, 0].item()], [3.75]])
+        self.Xf = torch.tensor(_pts(r, 2, lo=-0.9, hi=0.9))
+
+    def construct(self, data):
+        X, y = data
+        lik = gpytorch.likelihoods.GaussianLikelihood()
+        kern = gpytorch.kernels.ScaleKernel(gpytorch.kernels.GridInterpolationKernel(
+            gpytorch.kernels.RBFKernel(), grid_size=12, num_dims=1))
+        return _ExactModel(X.clone(), y.clone(), lik, gpytorch.means.ConstantMean(), kern)
+
+    def cfg(self, c):
+        return [_multi(), _multi(gs.fast_pred_var(True)),
+                _multi(gs.fast_pred_var(True), gs.fast_pred_samples(True)), _multi()][c]
+
+    def xs_for(self, c):
+        if c % NCFG == 3:
+            sh = SHAPES[c // NCFG]
+            if not sh:
+                return self.Xwide
+            n = torch.Size(sh).numel()
+            return torch.stack([self.Xwide + 0.0625 * i for i in range(n)]).reshape(*sh, *self.Xwide.shape)
+        return self.xs(c // NCFG)
+
+
 class Sgpr(ExactA):
     """SGPR: InducingPointKernel, SGPRPredictionStrategy"""
     name, coq, cmp_backward_status = "sgpr", 2, False
@@ -373,7 +454,7 @@ class VarWM(VarWC):
     name, coq, dist = "variational:whitened-meanfield", 4, "meanfield"
 
 
-FAMILIES = {"exactA": ExactA, "exactB": ExactB, "kiss": Kiss, "sgpr": Sgpr, "varWC": VarWC, "varUC": VarUC,
+FAMILIES = {"exactA": ExactA, "exactB": ExactB, "exactNaN": ExactNaN, "kiss": Kiss, "kissdyn": KissDyn, "sgpr": Sgpr, "varWC": VarWC, "varUC": VarUC,
             "varWN": VarWN, "varWM": VarWM}
 
 
@@ -412,7 +493,7 @@ def do_predict(fam, model, c, kind="post"):
                 return dist_out(fam.prior_call(model))
             with gs.prior_mode(True):
                 return dist_out(model(fam.Xs))
-        return dist_out(model(fam.xs(c // NCFG)))
+        return dist_out(model(fam.xs_for(c)))
 
 
 def do_backward(fam, model):
@@ -702,7 +783,7 @@ def plan(tier, seed):
     for f in ("exactA", "exactB"):
         P.append((f, [random_history(rng, full, rng.randint(5, 25)) for _ in range(nrand)], None))
     k2 = 2 if tier == "quick" else 3
-    for f in ("kiss", "sgpr", "varWC", "varUC", "varWN", "varWM"):
+    for f in ("exactNaN", "kiss", "kissdyn", "sgpr", "varWC", "varUC", "varWN", "varWM"):
         keep = (lambda o: True) if FAMILIES[f].has_data else (lambda o: o != O_SETDATA)
         alphabet = [o for o in ext(f) if keep(o)]
         P.append((f, exhaustive(alphabet, k2), (k2, len(alphabet))))
@@ -784,7 +865,11 @@ def run(out, ctx):
                 "constructed model holding the current snapshot; exhaustive short histories use the 4 settings on un-batched "
                 "inputs plus both batched shapes under one setting per family, random histories all 20 ops; non-trivial = a "
                 "cache-populating op, later a mutating op (Step/SetTrainData/LoadStateDict), later a prediction, or two "
-                "posterior calls on inputs of different batch shapes")
+                "posterior calls on inputs of different batch shapes; the settings axis is family specific: the exact family "
+                "with NaN training targets predicts under observation_nan_policy ignore / mask / fill / fast_pred_var+mask in "
+                "every order; the KISS-GP family on a data-following grid (no grid_bounds) has data versions spanning "
+                "different input ranges, a prior-mode call on the test range only, and one setting whose test inputs lie "
+                "outside the training range")
     out.extra["tolerances"] = {"prediction vs fresh model": ATOL}
     out.extra["exhaustive_bounds"] = exh
     out.exhaustive = True
